@@ -3,6 +3,7 @@
  *   FAULTFS_K       1-based index of the write/writev/close operation on that descriptor that fails
  *                   (and every later one); 0 = never fail, only count
  *   FAULTFS_MODE    enospc | eio | short   (short: the k-th write transfers only part of the data once; not a fault)
+ *   FAULTFS_ONCE    1: only the k-th operation fails (a transient fault); default: the k-th and every later one
  *   FAULTFS_LOG     file that receives one line per event: "OP n write|writev|close", "FAULT n <mode>", "SHORT n"
  */
 #define _GNU_SOURCE
@@ -59,7 +60,8 @@ static int tick(const char *what) {
   ++n_ops;
   logline("OP %ld %s\n", n_ops, what);
   long k = kfail();
-  if (k > 0 && n_ops >= k && strcmp(mode(), "short") != 0) {
+  const char *once = getenv("FAULTFS_ONCE");
+  if (k > 0 && (once && *once == '1' ? n_ops == k : n_ops >= k) && strcmp(mode(), "short") != 0) {
     logline("FAULT %ld %s\n", n_ops, mode());
     errno = strcmp(mode(), "eio") == 0 ? EIO : ENOSPC;
     return 1;
